@@ -166,16 +166,20 @@ impl Ctx {
                 }
             }
         }
-        // "altered" = not (up to the tag and the signature) one of the leader's shreds of this slice, at the
-        // index it now claims (two zero-padding shards are byte-identical: relabelling one as its sibling yields
-        // the leader's genuine shred for that index)
-        let genuine = self.sets[set].wires.get(w.shred_index as usize);
-        let content_changed = match genuine {
-            Some(g) => w.slot != g.slot || w.slice_index != g.slice_index || w.is_last != g.is_last || w.data != g.data || w.path != g.path,
-            None => true,
-        };
+        // "altered" = not (up to the tag and the signature) a shred some leader of this case produced, at the index
+        // and under the header it now claims (zero-padding shards of one slice are byte-identical, and two slices
+        // with equal payloads have equal shreds: relabelling then yields a genuine shred)
+        let content_changed = self.genuine_set(&w).is_none();
         let sig_changed = w.sig != orig.sig;
         (w, content_changed, sig_changed)
+    }
+
+    /// the set one of whose shreds `w` is, up to tag and signature
+    fn genuine_set(&self, w: &Wire) -> Option<usize> {
+        self.sets.iter().position(|st| match st.wires.get(w.shred_index as usize) {
+            Some(g) => w.slot == g.slot && w.slice_index == g.slice_index && w.is_last == g.is_last && w.data == g.data && w.path == g.path,
+            None => false,
+        })
     }
 
     fn validate(&self, w: &Wire, cached: Option<&SliceCommitment>, pk: usize) -> (Verdict, Option<ValidatedShred>) {
@@ -195,12 +199,14 @@ impl Ctx {
         if w.tag > 1 || w.is_last > 1 || w.shred_index >= 64 || w.slice_index >= 1024 {
             return Verdict::Undecodable;
         }
-        let sig_valid = !sig_changed && pk == self.sets[set].key;
-        let cache_is_own = cache.map(|c| self.sets[c].commitment == self.sets[set].commitment);
-        if content_changed {
+        let _ = (set, sig_changed);
+        let Some(g) = self.genuine_set(w) else {
             // claims a commitment nobody signed and nobody cached
             return Verdict::InvalidSignature;
-        }
+        };
+        let _ = content_changed;
+        let sig_valid = w.sig == self.sets[g].wires[0].sig && pk == self.sets[g].key;
+        let cache_is_own = cache.map(|c| self.sets[c].commitment == self.sets[g].commitment);
         match cache_is_own {
             Some(true) => Verdict::Ok,
             Some(false) => {
